@@ -238,6 +238,25 @@ func checkC16(c C16Case, o *Obs) error {
 }
 
 func exhaustiveC16(thorough bool, emit func(C16Case) bool) {
+	// thousands of short intervals in no particular order (a read pile-up): more events than any
+	// small-input code path handles, at several nesting depths
+	for _, n := range []int{1000, 5000, 9000} {
+		x := lcg(n)
+		var s, e []int
+		for i := 0; i < n; i++ {
+			st := x.next(20 * n)
+			s = append(s, st)
+			e = append(e, st+x.next(40)-2) // a few empty and inverted ones too
+		}
+		// and a pile of nested intervals listed innermost first
+		for d := 0; d < 12; d++ {
+			s = append(s, 500-d)
+			e = append(e, 520+d)
+		}
+		if !emit(C16Case{Starts: s, Ends: e, Queries: []int{0, 505, 20 * n}}) {
+			return
+		}
+	}
 	// Coordinates 0..3: all lists of up to 3 (thorough: 4) intervals incl. start==end and start>end.
 	maxN := 3
 	if thorough {
